@@ -13,6 +13,9 @@ package dpt
 //@   props C07
 //@   ensures [format] len(r) == 3 && r[0] == 0 && fresh(r)
 //@   ensures [exponent] f == 0.0 ==> r[1] == 0 && r[2] == 0
+//@   yields pkF16hi(f) == r[1]
+//@   yields pkF16lo(f) == r[2]
+//@   assigns nothing
 //@   loop 0 invariant exp >= 0 && exp <= 15
 //@   loop 0 invariant f == 0.0 ==> scaled == 0.0 && signedMantissa == 0 && exp == 0
 //@   loop 0 decreases 15 - exp
